@@ -37,11 +37,13 @@ FromLog(st, cfg, ob) ==
      nexit |-> st.nexit, arr |-> st.arr, and |-> st.and, ann |-> st.ann, anc |-> st.anc,
      nodes |-> st.nodes, cu |-> st.cu, exit |-> st.exit, steps |-> st.steps, recs |-> st.recs,
      ev |-> st.ev, unchecked |-> st.unchecked, trk |-> st.trk,
-     trkprev |-> <<st.trk.a, st.trk.b, st.trk.m>>, gb |-> ob.gb,
+     trkprev |-> <<st.trk.a, st.trk.b, st.trk.m>>, gb |-> ob.gb, dg |-> Range(st.dg), dl |-> FALSE,
      rt |-> ob.rt, cfg |-> cfg, mode |-> "trace", script |-> <<>>, err |-> ""]
 
 Rt0(cfg) == [k \in 1..cfg.K |-> [n \in 1..cfg.N |-> 0]]
-Obs0(cfg) == [rt |-> Rt0(cfg), gb |-> <<>>]
+Obs0(cfg) == [rt |-> Rt0(cfg), gb |-> <<>>, seen |-> <<>>]
+\* observer at the initial state of a trace: the initial tracker state is first seen at date 0
+ObsInit(tr) == [Obs0(tr.cfg) EXCEPT !.seen = << <<<<tr.init.trk.a, tr.init.trk.b, tr.init.trk.m>>, 0>> >>]
 
 \* fields compared between spec successor and log
 CmpFields == {"now", "created", "accepted", "completed", "nexit", "arr", "and", "ann", "anc",
@@ -51,6 +53,7 @@ NodeFields == {"c", "cap", "q", "count", "insvc", "srv", "hid", "bq", "lbq", "in
 
 DiffOf(T, post) ==
     {f \in CmpFields : T[f] # post[f]}
+    \cup (IF T.dg # Range(post.dg) THEN {"dg"} ELSE {})
     \cup (IF Len(T.nodes) # Len(post.nodes) THEN {"nodes.len"}
           ELSE UNION {{"nodes." \o f : f \in {g \in NodeFields : T.nodes[n][g] # post.nodes[n][g]}}
                       : n \in DOMAIN T.nodes})
@@ -66,7 +69,7 @@ TraceInit ==
     /\ wits = {}
     /\ drift = {}
     /\ taint = {}
-    /\ obs = Obs0(Traces[1].cfg)
+    /\ obs = ObsInit(Traces[1])
     /\ out = <<>>
 
 LoggedState(j) == IF j = 0 THEN Tr.init ELSE Tr.events[j]
@@ -76,7 +79,8 @@ AddFails(old, new, j) ==
 
 Verdict ==
     [tid |-> Tr.tid, n |-> l, outcome |-> Tr.outcome,
-     fails |-> AddFails(fails, F_C14_final(Tr.cfg, LoggedState(l), Tr.outcome), l),
+     fails |-> AddFails(fails, F_C14_final(Tr.cfg, LoggedState(l), Tr.outcome)
+                               \cup F_C18_final(Tr.cfg, LoggedState(l), Tr.outcome, obs.seen, Tr.final.ttd), l),
      wits |-> wits, drift |-> drift, taint |-> taint]
 
 \* initial state of a trace: invariants judged on it, and compared with the spec's Init
@@ -85,7 +89,7 @@ InitCheck ==
         st == Tr.init
         succ == InitStates(cfg, "trace", st.steps)
         match == {T \in succ : DiffOf(T, st) = {}}
-    IN [f |-> InvFails(cfg, st, Obs0(cfg)),
+    IN [f |-> InvFails(cfg, st, [gb |-> <<>>, dg |-> Range(st.dg)]),
         d |-> IF match # {} THEN {}
               ELSE IF succ = {} THEN {<<0, "no-successor", {"init"}>>}
               ELSE {<<0, "diff", DiffOf(CHOOSE T \in succ : TRUE, st)>>}]
@@ -103,7 +107,7 @@ StepEvent ==
            match == {T \in succ : DiffOf(T, e) = {}}
            obs2 == ObsAfter(cfg, e, obs)
            i0 == IF l = 0 THEN InitCheck ELSE [f |-> {}, d |-> {}]
-           newfails == StepFails(cfg, pre, e, obs) \cup InvFails(cfg, e, obs2)
+           newfails == StepFails(cfg, pre, e, obs) \cup InvFails(cfg, e, [gb |-> obs2.gb, dg |-> Range(e.dg)])
            dr == IF ~enabled THEN {<<l + 1, "not-enabled", {e.ev.kind}>>}
                  ELSE IF succ = {} THEN {<<l + 1, "no-successor", {e.ev.kind}>>}
                  ELSE IF match # {} THEN {}
@@ -132,7 +136,7 @@ NextTrace ==
     /\ taint' = {}
     /\ IF tid < NT
        THEN /\ S' = FromLog(Traces[tid + 1].init, Traces[tid + 1].cfg, Obs0(Traces[tid + 1].cfg))
-            /\ obs' = Obs0(Traces[tid + 1].cfg)
+            /\ obs' = ObsInit(Traces[tid + 1])
        ELSE S' = S /\ obs' = obs /\ ndJsonSerialize(IOEnv.OUT_FILE, out')
 
 TraceNext == StepEvent \/ NextTrace
